@@ -36,6 +36,7 @@ type bEngine struct {
 	nilable    bool // pointer fields of symbolic inputs have a symbolic nil-ness
 	safetyOverflow bool // `safety overflow`: signed machine arithmetic owes its range
 	safetyIndex  bool   // `safety index`: slice index expressions are obligations
+	safetyRows   bool   // `safety rows`: the `rowsafe` preconditions of the leaves are obligations
 	uptoLoop     bool   // prefix contract: the path ends at the first loop header of the function under contract
 	callbackPure string // non-empty: calls of function values are assumed not to touch polynomial storage (clause `callback`)
 	nilsafe    bool // dereferences of possibly-nil pointers are obligations (nil-deref)
@@ -306,6 +307,14 @@ func (e *bEngine) storeAt(st *bState, p bPtr, v bVal) {
 		}
 		if len(comps) == 1 {
 			o.elems[comps[0]] = v
+			if isWordType(o.typ) {
+				// a residue of an RNS scalar written directly: whatever ring element the array stood for, it
+				// need not any more
+				for _, g := range []string{"val", "mexp", "ntt", "uni"} {
+					arr := e.ghostArr(st, g)
+					st.ghost[g] = Store(arr, ConstI(int64(o.id)), Var(e.freshName(g), SInt))
+				}
+			}
 			return
 		}
 		cur := e.elem(st, o, comps[0])
@@ -557,6 +566,17 @@ func (e *bEngine) ghostArr(st *bState, name string) *Term {
 func (e *bEngine) polyID(st *bState, v bVal) (int, bool) {
 	sv, ok := v.(*bStruct)
 	if !ok {
+		// a slice of machine words (an RNS scalar: one residue per modulus) stands for a ring element too (a
+		// constant polynomial); its identity is its backing array
+		if sl, ok := v.(bSlice); ok && !sl.nil_ {
+			if o, ok := st.objs[sl.arr]; ok && o.arr && isWordType(o.typ) {
+				return sl.arr, true
+			}
+			if m, ok := e.reg.meta[sl.arr]; ok && m.arr && isWordType(m.typ) {
+				return sl.arr, true
+			}
+			return 0, false
+		}
 		if p, ok := v.(bPtr); ok && p.obj != 0 {
 			return e.polyID(st, e.loadAt(st, p))
 		}
